@@ -79,38 +79,31 @@ pub proof fn lemma_multiset_members(a: Seq<RawToken>, b: Seq<RawToken>)
     }
 }
 
-//@ lemma_index_lookup_agrees_with_flattened [C08]
-/// THE AGREEMENT: under the property's quantifier, an answer Some(t) of the index lookup (its contract) and any answer rf
-/// of the flattened map's lookup (its contract) at the same position point to the same original location.
-pub proof fn lemma_index_lookup_agrees_with_flattened<'a, 'b>(idx: &'a SourceMapIndex, out: &'b SourceMap, maps: Seq<SourceMap>, bts: Seq<RawToken>, line: u32, col: u32, t: Token<'a>, rf: Option<Token<'b>>)
+/// the section p in which a position resolves: its offset is the greatest one not after the position (and the relative position is not negative)
+pub open spec fn resolves_in(idx: SourceMapIndex, line: u32, col: u32, p: int) -> bool {
+    0 <= p < idx.sections@.len()
+    && tle(sec_key(idx.sections@[p]), (line, col))
+    && (forall|i: int| 0 <= i < idx.sections@.len() && tle(#[trigger] sec_key(idx.sections@[i]), (line, col)) ==> tle(sec_key(idx.sections@[i]), sec_key(idx.sections@[p])))
+    && 0 <= rel_line(line, idx.sections@[p].offset) && 0 <= rel_col(line, col, idx.sections@[p].offset)
+}
+//@ lemma_agree_core [C08]
+/// THE CORE: if the position resolves in section p, and `t` answers the lookup of that section's map (maps[p]) at the section-relative position, then any answer of the
+/// flattened map's lookup at the absolute position points to the same original location as `t`.
+pub proof fn lemma_agree_core<'a, 'b>(idx: &SourceMapIndex, out: &'b SourceMap, maps: Seq<SourceMap>, bts: Seq<RawToken>, line: u32, col: u32, p: int, t: Token<'a>, rf: Option<Token<'b>>)
     requires
-        plain_sections(*idx, maps), proper_sections(*idx, maps),
+        maps.len() == idx.sections@.len(), proper_sections(*idx, maps),
         flat_rel(sec_offsets(*idx), maps, bts, *out),
-        idx_lookup_post(idx, line, col, Some(t)),
+        resolves_in(*idx, line, col, p),
+        sm_lookup_post(&maps[p], rel_line(line, idx.sections@[p].offset) as u32, rel_col(line, col, idx.sections@[p].offset) as u32, Some(t)),
         sm_lookup_post(out, line, col, rf),
     ensures
         rf matches Some(t2) && same_loc(t2, t),
 {
     let n = maps.len() as int;
     let orig = origins(maps, n);
-    // 1. the section the index lookup resolved in
-    assert(exists|i: int| 0 <= i < idx.sections@.len() && tle(#[trigger] sec_key(idx.sections@[i]), (line, col))) by {
-        if forall|i: int| 0 <= i < idx.sections@.len() ==> !tle(#[trigger] sec_key(idx.sections@[i]), (line, col)) { assert(Some(t) is None); }
-    }
-    let p = choose|p: int| 0 <= p < idx.sections@.len()
-        && tle(#[trigger] sec_key(idx.sections@[p]), (line, col))
-        && (forall|i: int| 0 <= i < idx.sections@.len() && tle(#[trigger] sec_key(idx.sections@[i]), (line, col)) ==> tle(sec_key(idx.sections@[i]), sec_key(idx.sections@[p])))
-        && 0 <= rel_line(line, idx.sections@[p].offset) && 0 <= rel_col(line, col, idx.sections@[p].offset)
-        && (match idx.sections@[p].map {
-                Some(m) => match *m {
-                    DecodedMap::Regular(sm) => sm_lookup_post(&sm, rel_line(line, idx.sections@[p].offset) as u32, rel_col(line, col, idx.sections@[p].offset) as u32, Some(t)),
-                    DecodedMap::Index(inner) => idx_lookup_post(&inner, rel_line(line, idx.sections@[p].offset) as u32, rel_col(line, col, idx.sections@[p].offset) as u32, Some(t)),
-                    DecodedMap::Hermes(h) => sm_lookup_post(&h.sm, rel_line(line, idx.sections@[p].offset) as u32, rel_col(line, col, idx.sections@[p].offset) as u32, Some(t)) },
-                None => Some(t) is None });
     let off = idx.sections@[p].offset;
     let rl = rel_line(line, off) as u32; let rc = rel_col(line, col, off) as u32;
     let mp = maps[p];
-    assert(plain_map(idx.sections@[p]) == Some(mp));
     assert(sm_lookup_post(&mp, rl, rc, Some(t)));
     // 2. the token it found there
     let q = choose|q: int| 0 <= q < mp.tokens@.len() && t.raw == &#[trigger] mp.tokens@[q] && (tkey(mp.tokens@[q]) == (rl, rc) ==> (q == t.idx && forall|i: int| 0 <= i < q ==> #[trigger] tkey(mp.tokens@[i]) != (rl, rc)));
@@ -194,4 +187,171 @@ pub proof fn lemma_index_lookup_agrees_with_flattened<'a, 'b>(idx: &'a SourceMap
     assert(t2.offset == t.offset);
     assert(tok_source(out, bt) == tok_source(&mp, tok));
     assert(tok_name(out, bt) == tok_name(&mp, tok));
+}
+//@ lemma_index_lookup_agrees_with_flattened [C08]
+/// THE AGREEMENT (sections that are regular or Hermes maps): under the property's quantifier, an answer Some(t) of the index lookup (its contract) and any answer rf
+/// of the flattened map's lookup (its contract) at the same position point to the same original location.
+pub proof fn lemma_index_lookup_agrees_with_flattened<'a, 'b>(idx: &'a SourceMapIndex, out: &'b SourceMap, maps: Seq<SourceMap>, bts: Seq<RawToken>, line: u32, col: u32, t: Token<'a>, rf: Option<Token<'b>>)
+    requires
+        plain_sections(*idx, maps), proper_sections(*idx, maps),
+        flat_rel(sec_offsets(*idx), maps, bts, *out),
+        idx_lookup_post(idx, line, col, Some(t)),
+        sm_lookup_post(out, line, col, rf),
+    ensures
+        rf matches Some(t2) && same_loc(t2, t),
+{
+    let p = lemma_lookup_section(idx, line, col, t);
+    assert(plain_map(idx.sections@[p]) == Some(maps[p]));
+    lemma_agree_core(idx, out, maps, bts, line, col, p, t, rf);
+}
+/// the section the index lookup resolved in, with what its contract says about that section
+pub proof fn lemma_lookup_section<'a>(idx: &'a SourceMapIndex, line: u32, col: u32, t: Token<'a>) -> (p: int)
+    requires idx_lookup_post(idx, line, col, Some(t)),
+    ensures resolves_in(*idx, line, col, p),
+        (match idx.sections@[p].map {
+            Some(m) => match *m {
+                DecodedMap::Regular(sm) => sm_lookup_post(&sm, rel_line(line, idx.sections@[p].offset) as u32, rel_col(line, col, idx.sections@[p].offset) as u32, Some(t)),
+                DecodedMap::Index(inner) => idx_lookup_post(&inner, rel_line(line, idx.sections@[p].offset) as u32, rel_col(line, col, idx.sections@[p].offset) as u32, Some(t)),
+                DecodedMap::Hermes(h) => sm_lookup_post(&h.sm, rel_line(line, idx.sections@[p].offset) as u32, rel_col(line, col, idx.sections@[p].offset) as u32, Some(t)) },
+            None => false }),
+{
+    assert(exists|i: int| 0 <= i < idx.sections@.len() && tle(#[trigger] sec_key(idx.sections@[i]), (line, col))) by {
+        if forall|i: int| 0 <= i < idx.sections@.len() ==> !tle(#[trigger] sec_key(idx.sections@[i]), (line, col)) { assert(Some(t) is None); }
+    }
+    let p = choose|p: int| 0 <= p < idx.sections@.len()
+        && tle(#[trigger] sec_key(idx.sections@[p]), (line, col))
+        && (forall|i: int| 0 <= i < idx.sections@.len() && tle(#[trigger] sec_key(idx.sections@[i]), (line, col)) ==> tle(sec_key(idx.sections@[i]), sec_key(idx.sections@[p])))
+        && 0 <= rel_line(line, idx.sections@[p].offset) && 0 <= rel_col(line, col, idx.sections@[p].offset)
+        && (match idx.sections@[p].map {
+                Some(m) => match *m {
+                    DecodedMap::Regular(sm) => sm_lookup_post(&sm, rel_line(line, idx.sections@[p].offset) as u32, rel_col(line, col, idx.sections@[p].offset) as u32, Some(t)),
+                    DecodedMap::Index(inner) => idx_lookup_post(&inner, rel_line(line, idx.sections@[p].offset) as u32, rel_col(line, col, idx.sections@[p].offset) as u32, Some(t)),
+                    DecodedMap::Hermes(h) => sm_lookup_post(&h.sm, rel_line(line, idx.sections@[p].offset) as u32, rel_col(line, col, idx.sections@[p].offset) as u32, Some(t)) },
+                None => Some(t) is None });
+    p
+}
+
+// ---------------------------------------------------------------- nested index sections
+/// a predicate that holds somewhere in [0, n) has a greatest and a least index where it holds
+pub proof fn lemma_greatest_index(n: int, pr: spec_fn(int) -> bool) -> (m: int)
+    requires exists|i: int| 0 <= i < n && #[trigger] pr(i)
+    ensures 0 <= m < n && pr(m) && forall|i: int| m < i < n ==> !#[trigger] pr(i)
+    decreases n
+{
+    if pr(n - 1) { n - 1 } else {
+        assert(exists|i: int| 0 <= i < n - 1 && #[trigger] pr(i)) by { let i = choose|i: int| 0 <= i < n && #[trigger] pr(i); assert(i != n - 1); }
+        lemma_greatest_index(n - 1, pr)
+    }
+}
+pub proof fn lemma_least_index(n: int, pr: spec_fn(int) -> bool) -> (m: int)
+    requires exists|i: int| 0 <= i < n && #[trigger] pr(i)
+    ensures 0 <= m < n && pr(m) && forall|i: int| 0 <= i < m ==> !#[trigger] pr(i)
+    decreases n
+{
+    let w = choose|i: int| 0 <= i < n && #[trigger] pr(i);
+    if exists|i: int| 0 <= i < n - 1 && #[trigger] pr(i) { lemma_least_index(n - 1, pr) } else { assert(w == n - 1); n - 1 }
+}
+//@ lemma_lookup_answer_exists [C08]
+/// the statement of lookup_token is satisfiable on every map whose tokens are ordered (an answer exists for every position)
+pub proof fn lemma_lookup_answer_exists<'a>(sm: &'a SourceMap, line: u32, col: u32) -> (rf: Option<Token<'a>>)
+    requires sorted_tokens(sm.tokens@), sm.tokens@.len() <= usize::MAX,
+    ensures sm_lookup_post(sm, line, col, rf)
+{
+    let ts = sm.tokens@;
+    let n = ts.len() as int;
+    let pos = (line, col);
+    if forall|i: int| 0 <= i < n ==> !tle(#[trigger] tkey(ts[i]), pos) {
+        None
+    } else {
+        let le_pos = |i: int| tle(tkey(ts[i]), pos);
+        assert(exists|i: int| 0 <= i < n && #[trigger] le_pos(i)) by { let i = choose|i: int| 0 <= i < n && tle(#[trigger] tkey(ts[i]), pos); assert(le_pos(i)); }
+        let m = lemma_greatest_index(n, le_pos);
+        let same = |i: int| tkey(ts[i]) == tkey(ts[m]);
+        assert(same(m));
+        let q = lemma_least_index(n, same);
+        let raw = ts[q];
+        let off: u32 = if raw.is_range && raw.dst_line == line { (col - raw.dst_col) as u32 } else { 0u32 };
+        let t = Token { raw: &sm.tokens@[q], sm: sm, idx: q as usize, offset: off };
+        assert(tle(tkey(ts[q]), pos));
+        assert forall|i: int| 0 <= i < n && tle(#[trigger] tkey(ts[i]), pos) implies tle(tkey(ts[i]), tkey(ts[q])) by {
+            assert(le_pos(i));
+            if i > m { assert(!le_pos(i)); }
+            assert(tle(tkey(ts[i]), tkey(ts[m])));
+        }
+        assert(tkey(ts[q]) == pos ==> forall|i: int| 0 <= i < q ==> #[trigger] tkey(ts[i]) != pos) by {
+            if tkey(ts[q]) == pos { assert forall|i: int| 0 <= i < q implies #[trigger] tkey(ts[i]) != pos by { assert(!same(i)); } }
+        }
+        assert(0 <= q < sm.tokens@.len() && t.raw == &sm.tokens@[q]);
+        Some(t)
+    }
+}
+/// out is a flattening of idx, and at every level of nesting the sections are as the property quantifies them (offsets strictly increasing, distinct generated
+/// positions inside a section, every moved token before the next offset)
+pub open spec fn flat_proper(idx: SourceMapIndex, out: SourceMap) -> bool
+    decreases idx
+{
+    exists|maps: Seq<SourceMap>, bts: Seq<RawToken>|
+        maps.len() == idx.sections@.len()
+        && (forall|i: int| 0 <= i < idx.sections@.len() ==> match (#[trigger] idx.sections@[i]).map {
+            Some(b) => match *b {
+                DecodedMap::Regular(sm) => maps[i] == sm,
+                DecodedMap::Index(inner) => flat_proper(inner, maps[i]),
+                DecodedMap::Hermes(h) => maps[i] == h.sm },
+            None => false })
+        && #[trigger] flat_rel(sec_offsets(idx), maps, bts, out)
+        && proper_sections(idx, maps)
+}
+pub proof fn lemma_same_loc_trans(a: Token, b: Token, c: Token)
+    requires same_loc(a, b), same_loc(b, c)
+    ensures same_loc(a, c)
+{}
+//@ lemma_index_lookup_agrees_with_flattened_nested [C08]
+/// THE AGREEMENT, nested index sections included: by induction over the nesting -- a nested section resolves (by the induction hypothesis) to the same original
+/// location as the lookup on ITS flattening, which is the map the outer flattening was built from, so the core argument applies one level up.
+pub proof fn lemma_index_lookup_agrees_with_flattened_nested<'a, 'b>(idx: &'a SourceMapIndex, out: &'b SourceMap, line: u32, col: u32, t: Token<'a>, rf: Option<Token<'b>>)
+    requires
+        flat_proper(*idx, *out),
+        idx_lookup_post(idx, line, col, Some(t)),
+        sm_lookup_post(out, line, col, rf),
+    ensures
+        rf matches Some(t2) && same_loc(t2, t),
+    decreases *idx
+{
+    let (maps, bts) = choose|maps: Seq<SourceMap>, bts: Seq<RawToken>|
+        maps.len() == idx.sections@.len()
+        && (forall|i: int| 0 <= i < idx.sections@.len() ==> match (#[trigger] idx.sections@[i]).map {
+            Some(b) => match *b {
+                DecodedMap::Regular(sm) => maps[i] == sm,
+                DecodedMap::Index(inner) => flat_proper(inner, maps[i]),
+                DecodedMap::Hermes(h) => maps[i] == h.sm },
+            None => false })
+        && #[trigger] flat_rel(sec_offsets(*idx), maps, bts, *out)
+        && proper_sections(*idx, maps);
+    let p = lemma_lookup_section(idx, line, col, t);
+    let off = idx.sections@[p].offset;
+    let rl = rel_line(line, off) as u32; let rc = rel_col(line, col, off) as u32;
+    let sec = idx.sections@[p];
+    match sec.map {
+        Some(b) => match *b {
+            DecodedMap::Regular(sm) => { assert(maps[p] == sm); lemma_agree_core(idx, out, maps, bts, line, col, p, t, rf); },
+            DecodedMap::Hermes(h) => { assert(maps[p] == h.sm); lemma_agree_core(idx, out, maps, bts, line, col, p, t, rf); },
+            DecodedMap::Index(inner) => {
+                let mp = maps[p];
+                assert(flat_proper(inner, mp));
+                lemma_flat_proper_sorted(inner, mp);
+                let rf1 = lemma_lookup_answer_exists(&mp, rl, rc);
+                lemma_index_lookup_agrees_with_flattened_nested(&inner, &mp, rl, rc, t, rf1);
+                let t1 = rf1->Some_0;
+                lemma_agree_core(idx, out, maps, bts, line, col, p, t1, rf);
+                lemma_same_loc_trans(rf->Some_0, t1, t);
+            },
+        },
+        None => {},
+    }
+}
+pub proof fn lemma_flat_proper_sorted(idx: SourceMapIndex, out: SourceMap)
+    requires flat_proper(idx, out)
+    ensures sorted_tokens(out.tokens@), out.tokens@.len() <= usize::MAX
+{
+    assert(out.tokens@.len() == out.tokens.len());
 }
